@@ -236,7 +236,12 @@ func collisionHists() []rl.Case {
 	a3 := q(1, "www.example.com.", 1, ipLoc1)
 	b3 := q(2, "www.example.com.", 1, ipLoc1)
 	b3.Qclass = 3
-	return []rl.Case{mk("key-collision-type-class", a1, b1), mk("key-collision-class-name", a2, b2), mk("class-in-vs-chaos", a3, b3)}
+	a4 := q(1, "1www.example.com.", 1, ipLoc1)
+	a4.Qclass = 100
+	b4 := q(2, "www.example.com.", 1, ipLoc1)
+	b4.Qclass = 1001
+	return []rl.Case{mk("key-collision-type-class", a1, b1), mk("key-collision-class-name", a2, b2),
+		mk("key-collision-other-name", a4, b4), mk("class-in-vs-chaos", a3, b3)}
 }
 
 func expiryHist() rl.Case {
